@@ -54,7 +54,9 @@ then run against the *quick* check of its property with `tools/try_mutant.sh` (a
 `./check <P> quick`, restore /repo); `tools/run_seeded.sh` repeats all of them and writes
 `seeded/RESULTS.txt` (`tools/run_seeded_copy.sh` does the same on a copy of /repo and of the
 simulator, so that other work can go on), from which this table is generated: **%d of %d caught by
-the quick check**.
+the quick check**. The rows of rounds one to seven were measured with the checks as they stood
+after round seven, except the seven changes missed then, which were re-run with the final checks
+(two of them are caught now), as were all of rounds eight and nine.
 
 | id | needs, in order to manifest | quick check | first signature reported |
 |---|---|---|---|
